@@ -320,3 +320,283 @@ func H10syn() {
 		check(mEq(h10Val(r[0].Max), v2), "the upper bound is the number written")
 	}
 }
+
+// ---- H10u: the use site (types.go Type.resolve): restrictions written in a module, through
+// Parse + Process, with the real number parsers. The built-in parent sets are written here from
+// RFC 7950 9.2 / 9.3 / 9.4, independently of the library's tables.
+
+type h10Base struct {
+	name   string
+	lo, hi mInt
+	length bool // the restriction is a length (string, binary), else a range
+}
+
+func h10Bases() []h10Base {
+	two63 := mU(1 << 63)
+	return []h10Base{
+		{"int8", mI(-128), mI(127), false},
+		{"int16", mI(-32768), mI(32767), false},
+		{"int32", mI(-2147483648), mI(2147483647), false},
+		{"int64", mNeg(two63), mSub(two63, mI(1)), false},
+		{"uint8", mI(0), mI(255), false},
+		{"uint16", mI(0), mI(65535), false},
+		{"uint32", mI(0), mI(4294967295), false},
+		{"uint64", mI(0), mU(1<<64 - 1), false},
+		{"string", mI(0), mU(1<<64 - 1), true},
+		{"binary", mI(0), mU(1<<64 - 1), true},
+	}
+}
+
+// h10Lit spells an arbitrary 64-bit magnitude with optional sign in decimal and returns the
+// text and the denoted integer.
+var h10LitNeg bool // some literal drawn by h10Lit since it was last reset carries a minus sign
+
+func h10Lit() (string, mInt) {
+	neg := symBool()
+	h10LitNeg = h10LitNeg || neg
+	v := symU64()
+	lit := strconv.FormatUint(v, 10)
+	val := mU(v)
+	if neg {
+		lit = "-" + lit
+		val = mNeg(val)
+	}
+	return lit, val
+}
+
+func h10RangeOf(e *Entry, length bool) YangRange {
+	if e == nil || e.Type == nil {
+		return nil
+	}
+	if length {
+		return e.Type.Length
+	}
+	return e.Type.Range
+}
+
+// h10CheckOne: r is exactly the one interval [lo,hi] at fraction-digits fd.
+func h10CheckOne(r YangRange, lo, hi mInt, fd int, what string) {
+	check(len(r) == 1, what+": one part")
+	if len(r) != 1 {
+		return
+	}
+	check(mEq(h10Val(r[0].Min), lo), what+": lower bound")
+	check(mEq(h10Val(r[0].Max), hi), what+": upper bound")
+	check(int(r[0].Min.FractionDigits) == fd && int(r[0].Max.FractionDigits) == fd, what+": fraction-digits of the bounds")
+}
+
+// mode 0: one restriction on a built-in type, one bound an arbitrary 64-bit literal, the other
+// min/max (or the single value); mode 3: both bounds arbitrary literals.
+func h10uBase(both bool) {
+	bs := h10Bases()
+	b := bs[symChoice(len(bs))]
+	var text string
+	var lo, hi mInt
+	h10LitNeg = false
+	if both {
+		t1, v1 := h10Lit()
+		t2, v2 := h10Lit()
+		text, lo, hi = t1+".."+t2, v1, v2
+	} else {
+		t, v := h10Lit()
+		switch symChoice(3) {
+		case 0:
+			text, lo, hi = t+"..max", v, b.hi
+		case 1:
+			text, lo, hi = "min.."+t, b.lo, v
+		default:
+			text, lo, hi = t, v, v
+		}
+	}
+	kw := "range"
+	if b.length {
+		kw = "length"
+	}
+	src := `module m { namespace "urn:m"; prefix m; leaf l { type ` + b.name + ` { ` + kw + ` "` + text + `"; } } leaf p { type ` + b.name + `; } }`
+	note(src)
+	ms, lerrs := hLoad(src)
+	check(len(lerrs) == 0, "the module parses")
+	errs := ms.Process()
+	ok := symAnd(mLe(b.lo, lo), symAnd(mLe(lo, hi), mLe(hi, b.hi)))
+	if b.length {
+		// a length bound is a non-negative-integer-value; the library reads "-0" as 0 in some
+		// positions and rejects it in others - a spelling question (cf. the lenient-number-spelling
+		// finding), no claim either way; negative values proper are outside the set anyway
+		assume(symNot(symAnd(h10LitNeg, symOr(mEq(lo, mI(0)), mEq(hi, mI(0))))))
+	}
+	if len(errs) > 0 {
+		reach("rejected")
+		check(symNot(ok), "a restriction with ordered bounds inside the built-in type's set is accepted")
+		return
+	}
+	reach("accepted")
+	check(ok, "a restriction with bounds out of order or outside the built-in type's set is rejected")
+	top := ToEntry(ms.Modules["m"])
+	h10CheckOne(h10RangeOf(top.Dir["l"], b.length), lo, hi, 0, "restricted leaf")
+	if !b.length {
+		h10CheckOne(h10RangeOf(top.Dir["p"], false), b.lo, b.hi, 0, "unrestricted leaf has the built-in set")
+	} else {
+		check(len(h10RangeOf(top.Dir["p"], true)) == 0, "unrestricted string has no length restriction")
+	}
+}
+
+type h10Lvl struct {
+	present bool
+	text    string
+	lo, hi  mInt
+}
+
+// h10Digit: a bound of one symbolic digit, optionally negative.
+func h10Digit(signed bool) (string, mInt) {
+	d := symByte()
+	assume(d >= '0')
+	assume(d <= '9')
+	v := mU(uint64(d - '0'))
+	s := string([]byte{d})
+	if signed && symBool() {
+		return "-" + s, mNeg(v)
+	}
+	return s, v
+}
+
+// mode 1: a derivation chain BASE <- t1 <- t2 <- leaf, every level with or without a restriction
+// "A..B" of one-digit bounds: each level's set is its own restriction, which must lie inside the
+// set inherited from the level below; leaves of t1, t2 see those levels' sets unchanged.
+func h10uChain() {
+	bs := h10Bases()
+	pick := []int{0, 3, 5, 7, 8}
+	b := bs[pick[symChoice(len(pick))]]
+	signed := b.name == "int8" || b.name == "int64"
+	kw := "range"
+	if b.length {
+		kw = "length"
+	}
+	var lv [3]h10Lvl
+	for i := range lv {
+		if i == 1 && param("lv") < 3 {
+			continue // the middle typedef passes its base through unrestricted
+		}
+		lv[i].present = symBool()
+		if lv[i].present {
+			t1, v1 := h10Digit(signed)
+			t2, v2 := h10Digit(false)
+			lv[i].text, lv[i].lo, lv[i].hi = t1+".."+t2, v1, v2
+		}
+	}
+	ty := func(base string, l h10Lvl) string {
+		if !l.present {
+			return "type " + base + ";"
+		}
+		return "type " + base + ` { ` + kw + ` "` + l.text + `"; }`
+	}
+	src := `module m { namespace "urn:m"; prefix m; typedef t1 { ` + ty(b.name, lv[0]) + ` } typedef t2 { ` + ty("t1", lv[1]) + ` } ` +
+		`leaf l { ` + ty("t2", lv[2]) + ` } leaf l1 { type t1; } leaf l2 { type t2; } }`
+	note(src)
+	ms, lerrs := hLoad(src)
+	check(len(lerrs) == 0, "the module parses")
+	errs := ms.Process()
+	// reference: effective set per level
+	ok := true
+	curLo, curHi := b.lo, b.hi
+	restricted := false
+	var effLo, effHi [3]mInt
+	var effR [3]bool
+	for i, l := range lv {
+		if l.present {
+			ok = symAnd(ok, symAnd(mLe(curLo, l.lo), symAnd(mLe(l.lo, l.hi), mLe(l.hi, curHi))))
+			curLo, curHi = l.lo, l.hi
+			restricted = true
+		}
+		effLo[i], effHi[i], effR[i] = curLo, curHi, restricted
+	}
+	if len(errs) > 0 {
+		reach("rejected")
+		check(symNot(ok), "a chain in which every restriction lies inside the set it inherits is accepted")
+		return
+	}
+	reach("accepted")
+	check(ok, "a restriction admitting a value the inherited set does not (or with bounds out of order) is rejected at its step of the chain")
+	top := ToEntry(ms.Modules["m"])
+	for i, n := range []string{"l1", "l2", "l"} {
+		r := h10RangeOf(top.Dir[n], b.length)
+		if b.length && !effR[i] {
+			check(len(r) == 0, "no length restriction anywhere below: none reported")
+			continue
+		}
+		h10CheckOne(r, effLo[i], effHi[i], 0, "level "+n)
+	}
+}
+
+// mode 2: decimal64 at every fraction-digits F: the built-in set is the signed 64-bit mantissa
+// range at F; a restriction "A.a..max" / "min..A.a" / "A.a..B.b" denotes mantissas scaled to F;
+// a typedef carrying the fraction-digits hands precision and set on to a restricted use.
+func h10uDec() {
+	f := symRange(1, 18)
+	two63 := mU(1 << 63)
+	blo, bhi := mNeg(two63), mSub(two63, mI(1))
+	viaTypedef := symBool()
+	num := func() (string, mInt) {
+		d1, d2 := symByte(), symByte()
+		assume(d1 >= '0')
+		assume(d1 <= '9')
+		assume(d2 >= '0')
+		assume(d2 <= '9')
+		v := mMulPow10(mAdd(mMulPow10(mU(uint64(d1-'0')), 1), mU(uint64(d2-'0'))), f-1)
+		s := string([]byte{d1, '.', d2})
+		if symBool() {
+			return "-" + s, mNeg(v)
+		}
+		return s, v
+	}
+	var text string
+	var lo, hi mInt
+	switch symChoice(3) {
+	case 0:
+		t, v := num()
+		text, lo, hi = t+"..max", v, bhi
+	case 1:
+		t, v := num()
+		text, lo, hi = "min.."+t, blo, v
+	default:
+		t1, v1 := num()
+		t2, v2 := num()
+		text, lo, hi = t1+".."+t2, v1, v2
+	}
+	fds := hItoa(int64(f))
+	var src string
+	if viaTypedef {
+		src = `module m { namespace "urn:m"; prefix m; typedef d { type decimal64 { fraction-digits ` + fds + `; } } leaf l { type d { range "` + text + `"; } } leaf p { type d; } }`
+	} else {
+		src = `module m { namespace "urn:m"; prefix m; leaf l { type decimal64 { fraction-digits ` + fds + `; range "` + text + `"; } } leaf p { type decimal64 { fraction-digits ` + fds + `; } } }`
+	}
+	note(src)
+	ms, lerrs := hLoad(src)
+	check(len(lerrs) == 0, "the module parses")
+	errs := ms.Process()
+	// 9.9 * 10^(F-1) fits in 63 bits only below F = 18: at F = 18 the bound 9.9 is 9.9e18 > 2^63-1
+	ok := symAnd(mLe(blo, lo), symAnd(mLe(lo, hi), mLe(hi, bhi)))
+	if len(errs) > 0 {
+		reach("rejected")
+		check(symNot(ok), "a decimal64 restriction with ordered bounds inside the mantissa range is accepted")
+		return
+	}
+	reach("accepted")
+	check(ok, "a decimal64 restriction outside the mantissa range at this precision, or out of order, is rejected")
+	top := ToEntry(ms.Modules["m"])
+	check(top.Dir["l"].Type.FractionDigits == f && top.Dir["p"].Type.FractionDigits == f, "the type carries the written fraction-digits")
+	h10CheckOne(h10RangeOf(top.Dir["l"], false), lo, hi, f, "restricted decimal64")
+	h10CheckOne(h10RangeOf(top.Dir["p"], false), blo, bhi, f, "unrestricted decimal64 has the full mantissa range")
+}
+
+func H10u() {
+	switch param("mode") {
+	case 0:
+		h10uBase(false)
+	case 1:
+		h10uChain()
+	case 2:
+		h10uDec()
+	case 3:
+		h10uBase(true)
+	}
+}
